@@ -53,3 +53,57 @@ WEXPORT int64_t w_json_cmp_scalar(int ka, uint64_t va, int kb, uint64_t vb, cons
   }
   W_JSON_CATCH
 }
+
+// Value trees of a concrete SHAPE with up to two leaves a, b (kind/value as make_scalar; a string leaf is the 1-byte string
+// (char)val) and up to two 1-byte dictionary keys k[0], k[1]:
+//   0 []   1 {}   2 [a]   3 [a,b]   4 {k0:a}   5 {k0:a,k1:b}   6 [[a]]   7 {k0:[a]}   8 [{k0:a}]   9 [[],{}]   10 [a,[b]]
+static JSON leaf(int kind, uint64_t val) {
+  uint8_t c = static_cast<uint8_t>(val);
+  return make_scalar(kind, val, &c, 1);
+}
+static JSON make_tree(int shape, int ka, uint64_t va, int kb, uint64_t vb, const uint8_t* k) {
+  std::string k0(reinterpret_cast<const char*>(k), 1), k1(reinterpret_cast<const char*>(k + 1), 1);
+  switch (shape) {
+    case 0: return JSON::list();
+    case 1: return JSON::dict();
+    case 2: return JSON::list({leaf(ka, va)});
+    case 3: return JSON::list({leaf(ka, va), leaf(kb, vb)});
+    case 4: return JSON::dict({{k0, leaf(ka, va)}});
+    case 5: return JSON::dict({{k0, leaf(ka, va)}, {k1, leaf(kb, vb)}});
+    case 6: return JSON::list({JSON::list({leaf(ka, va)})});
+    case 7: return JSON::dict({{k0, JSON::list({leaf(ka, va)})}});
+    case 8: return JSON::list({JSON::dict({{k0, leaf(ka, va)}})});
+    case 9: return JSON::list({JSON::list(), JSON::dict()});
+    default: return JSON::list({leaf(ka, va), JSON::list({leaf(kb, vb)})});
+  }
+}
+// the first leaf of the tree (shapes with a leaf)
+static JSON& first_leaf(JSON& j, int shape, const uint8_t* k) {
+  std::string k0(reinterpret_cast<const char*>(k), 1);
+  switch (shape) {
+    case 2: case 3: case 10: return j.at(0);
+    case 4: case 5: return j.at(k0);
+    case 6: return j.at(0).at(0);
+    case 7: return j.at(k0).at(0);
+    default: return j.at(0).at(k0);
+  }
+}
+// what: 0 serialize the tree; 1 serialize a copy (copy constructor); 2 copy, overwrite the copy's first leaf with leaf b,
+// serialize the ORIGINAL (deep copy: must be unchanged); 3 same, serialize the modified COPY;
+// 4 return (orig == copy) | (orig != copy) << 1 | (orig == modified copy) << 2 | (orig != modified copy) << 3
+WEXPORT int64_t w_json_tree(int what, int shape, int ka, uint64_t va, int kb, uint64_t vb, const uint8_t* k, uint32_t options, uint8_t* out, size_t cap) {
+  try {
+    JSON orig = make_tree(shape, ka, va, kb, vb, k);
+    if (what == 0) return w_copy_out(orig.serialize(options), out, cap);
+    JSON copy(orig);
+    if (what == 1) return w_copy_out(copy.serialize(options), out, cap);
+    if (what == 4) {
+      int64_t r = (orig == copy ? 1 : 0) | (orig != copy ? 2 : 0);
+      first_leaf(copy, shape, k) = leaf(kb, vb);
+      return r | (orig == copy ? 4 : 0) | (orig != copy ? 8 : 0);
+    }
+    first_leaf(copy, shape, k) = leaf(kb, vb);
+    return w_copy_out((what == 2 ? orig : copy).serialize(options), out, cap);
+  }
+  W_JSON_CATCH
+}
